@@ -2,6 +2,7 @@ package main
 
 import (
 	"bufio"
+	"context"
 	"encoding/json"
 	"fmt"
 	"net/http/httptest"
@@ -199,3 +200,66 @@ func init() {
 		}
 	}
 }
+
+// family "panic-typed" (C13): the caller of a panicking method is a real client with an error table; the panic's payload is
+// a string, an error of an unregistered type, and an error of a type registered on both sides. Whatever it is, the
+// caller's error mentions the panic (it must not be rebuilt into the registered type as if the handler had returned it).
+type panicTypedObs struct {
+	Transport string `json:"transport"`
+	Method    string `json:"method"`
+	ErrType   string `json:"err_type"`
+	Err       string `json:"err"`
+	Oracle    string `json:"oracle_fail,omitempty"`
+}
+
+func panicTypedFamily(seed uint64, tier string, args []string) {
+	l := &invLog{}
+	srv := newStdServer(0, -1, l)
+	ts := httptest.NewServer(srv)
+	defer ts.Close()
+	for _, transport := range []string{"http", "ws"} {
+		var cl struct {
+			Panic      func() error
+			PanicInt   func(int) (int, error)
+			PanicCoded func() error
+			CodeErr    func(int) error
+		}
+		addr := ts.URL
+		if transport == "ws" {
+			addr = "ws" + strings.TrimPrefix(ts.URL, "http")
+		}
+		closer, err := jsonrpc.NewMergeClient(context.Background(), addr, "H", []interface{}{&cl}, nil, jsonrpc.WithErrors(stdErrors()), jsonrpc.WithNoReconnect())
+		if err != nil {
+			emit(panicTypedObs{Transport: transport, Oracle: "client construction failed: " + err.Error()})
+			continue
+		}
+		calls := []struct {
+			name string
+			f    func() error
+		}{{"Panic", cl.Panic}, {"PanicInt", func() error { _, e := cl.PanicInt(3); return e }}, {"PanicCoded", cl.PanicCoded}}
+		for _, c := range calls {
+			e := c.f()
+			o := panicTypedObs{Transport: transport, Method: c.name}
+			if e != nil {
+				o.ErrType, o.Err = fmt.Sprintf("%T", e), truncate(e.Error(), 200)
+			}
+			if e == nil || !strings.Contains(e.Error(), "panic") {
+				o.Oracle = fmt.Sprintf("method %s panicked; its caller (a client with the server's error table) got %s %q, which does not mention the panic", c.name, o.ErrType, o.Err)
+			}
+			emit(o)
+		}
+		// control: the same registered type *returned* by a handler does arrive as that type
+		e := cl.CodeErr(5)
+		o := panicTypedObs{Transport: transport, Method: "CodeErr"}
+		if e != nil {
+			o.ErrType, o.Err = fmt.Sprintf("%T", e), truncate(e.Error(), 200)
+		}
+		if o.ErrType != "*main.CodedErr" {
+			o.Oracle = "control: a registered error returned by a handler did not arrive as its type: " + o.ErrType
+		}
+		emit(o)
+		closer()
+	}
+}
+
+func init() { families["panic-typed"] = panicTypedFamily }
